@@ -1,5 +1,6 @@
 import Driver.Proto
 import AGH.Spec.QLog
+import AGH.Model.QLogJSON
 open Driver AGH AGH.C07
 
 /-! Line-protocol driver for C07 (query log).  Stateful: a block starts with
@@ -250,6 +251,21 @@ def stepReset (ins impl : List String) : Option (DSt × String) := do
     | [] => none
   | _ => none
 
+/-- The constants the model hard-codes, as the `C07.consts` line lists them. -/
+def modelConsts : List String :=
+  let emptyReq : Req := { older := .absent, limitRaw := [], offsetRaw := [], searchRaw := [], loweredRaw := [],
+                          asciiRet := [], asciiErr := false, statusRaw := [] }
+  let defaults : List String := match parseParams 50000 emptyReq with
+    | some p => [toString p.limit, toString p.scan, toString p.offset]
+    | none => ["?", "?", "?"]
+  defaults ++ [toString statusNames.length] ++ statusNames.map (fun x => hexEncode x.1) ++
+    [toString reasonNames.length] ++
+    (List.range reasonNames.length).map (fun i =>
+      match reasonNames.find? (fun x => x.1 == i) with
+      | some x => hexEncode (AGH.Bytes.ofString x.2)
+      | none => "?") ++
+    [hexEncode (AGH.Bytes.ofString logFileName), toString maxEntrySize, toString readBufferSize]
+
 def step' (d : DState) (line : String) : DState × String :=
   let fs := splitTab line
   match fs with
@@ -258,7 +274,25 @@ def step' (d : DState) (line : String) : DState × String :=
     match splitArrow rest with
     | none => (d, "bad-op")
     | some (ins, impl) =>
-      if op == "C07.reset" then
+      if op == "C07.str" then
+        match ins, impl with
+        | [sx], [encx, rawx, rt] =>
+          match hexDecode sx, hexDecode encx with
+          | some sb, some enc =>
+            let menc := escape sb
+            let mraw := rawValue (menc ++ 34 :: [44])
+            let modelObs := [hexEncode menc, hexEncode mraw, "1"]
+            -- the model decoder on the REAL encoder's bytes
+            let spec := if unescape enc != some sb then some "C07.json-string-decode"
+              else if rt != "1" then some "C07.json-string-roundtrip" else none
+            let cls := if jsonEscaped sb then "str.escaped" else "str.raw"
+            (d, verdict (modelObs == [encx, rawx, rt]) spec (joinWith "\t" (cls :: modelObs)))
+          | _, _ => (d, "bad-op")
+        | _, _ => (d, "bad-op")
+      else if op == "C07.consts" then
+        let agree := modelConsts == impl
+        (d, verdict agree (if agree then none else some "C07.consts") (joinWith "\t" ("consts" :: modelConsts)))
+      else if op == "C07.reset" then
         match stepReset ins impl with
         | some (st, o) => ({ st := some st }, o)
         | none => ({ st := none }, "bad-op")
